@@ -129,6 +129,11 @@ def run(tier):
     ms = leg_m(wd, tier)
     rr = leg_r(wd, tier, binary, verdict)
     tt = leg_t(wd, tier, binary, verdict)
+    # "consequently the chain store behaves the same whichever backend it is given"
+    cbin = vlib.go_build("chainx", wd)
+    cb = vlib.go_run(cbin, "TestBackends", wd, env={"VERIF_HISTORIES": 10 if tier == "quick" else 120}, timeout=1800)
+    verdict.add_all(cb["mismatches"])
+    log("  chain store over the four backends: %d histories, %d backend comparisons, %d mismatches, %.1fs" % (cb["traces"], cb["evaluations"], len(cb["mismatches"]), cb["wall"]))
     rc = verdict.finish()
     cov = {
         "states": sum(m.distinct for m in ms), "transitions": sum(m.generated for m in ms),
@@ -143,6 +148,7 @@ def run(tier):
         "rule": "R: one evaluation per (backend, spec transition) step of the edge cover, distinct by (backend, action, target state); "
                 "T: every mutating-op sequence of length L over the alphabet plus random sequences, distinct by (backend, sequence); every interface call is one TLC-validated event",
         "backends": ["MemDB", "CacheDB(MemDB)", "CacheDB(Bolt)", "BoltChainDB"],
+        "chain_store_over_backends": {"histories": cb["traces"], "comparisons": cb["evaluations"]},
     }
     vlib.write_evidence(PROP, tier, "model_checking", cov,
                         ["bucket handles are re-fetched after every Flush/Cancel (as DBStore does)",
